@@ -747,7 +747,7 @@ func oneTable(seed int64) tableResult {
 }
 
 func Run(args []string) {
-	rep := vh.NewReport(command, "random type tables as in sem-addprops (4 named types biased towards objects - in every second table all four are objects and the root is mostly a reference or an object -, root of depth<=3, recursive references, nullable, additionalProperties) where every third object carries allOf with one or two of the four type names (chains, diamonds, cycles, non-object bases, duplicate keys all occur); JSight text -> real AddType/Check/Validate, same IR as S-expressions -> Lean AO.compileAll then VA.validateT; 12 documents per table: 5 sampled from the schema incl. the members of the base types, 5 sampled then mutated, 2 random; tables refused by the real Check are skipped and counted by error code, and the model is asked once whether its allOf expansion fails too (required when the error code is 402/703/704/705; Check also fails for reasons outside the allOf model, e.g. the type recursion check); nontrivial = an object with allOf is reachable from the root; a difference on a table where a non-nullable reference position whose names all end in a cycle of pure references (@a = @a: no alternative at all) is reachable from the root carries the class K-C09-cycle")
+	rep := vh.NewReport(command, "random type tables as in sem-addprops (4 named types biased towards objects - in every second table all four are objects and the root is mostly a reference or an object -, root of depth<=3, recursive references, nullable, additionalProperties) where every third object carries allOf with one or two of the four type names (chains, diamonds, cycles, non-object bases, duplicate keys all occur); JSight text -> real AddType/Check/Validate, same IR as S-expressions -> Lean AO.compileAll then VA.validateT; 12 documents per table: 5 sampled from the schema incl. the members of the base types, 5 sampled then mutated, 2 random; tables refused by the real Check are skipped and counted by error code, and the model is asked once whether its allOf expansion fails too (required when the error code is 402/703/704/705; Check also fails for reasons outside the allOf model, e.g. the type recursion check); nontrivial = an object with allOf is reachable from the root; document string scalars are drawn every second time from a pool of 32 strings whose content looks like another JSON kind (\"1.5\", \"a.b\", \"true\", \"null\", \"{}\", \"1e5\", \"\", \" \", the same with \\u escapes), also as the value of the extra member under every additionalProperties mode one time in four; a case whose document holds such a string is validated 8 times and every repeat must give the model verdict (UNSTABLE otherwise); a difference on a table where a non-nullable reference position whose names all end in a cycle of pure references (@a = @a: no alternative at all) is reachable from the root carries the class K-C09-cycle")
 	r := vh.NewRand(salt)
 	nTables := vh.Pick(8000, 240000)
 	const batch = 4000
